@@ -144,6 +144,55 @@ func init() {
 		sb.WriteString("def mergeCompactionCalls : List String := " + LeanStrList(CallSeq(FindFunc(cj, "compactJob", "mergeCompaction"))) + "\n")
 		sb.WriteString("def installCompactionResultsCalls : List String := " + LeanStrList(CallSeq(FindFunc(cj, "compactJob", "installCompactionResults"))) + "\n")
 		sb.WriteString("def moveCompactionCalls : List String := " + LeanStrList(CallSeq(FindFunc(cj, "compactJob", "moveCompaction"))) + "\n")
+		// ---- table/builder.go: storeBuilder.Close must hand the error of the final writer.Close() (buffer
+		// flush + file close) to its caller: named result, assigned inside the deferred closure, not shadowed
+		_, tb, err := ParseFile(repo, "kv/table/builder.go")
+		if err != nil {
+			return "", err
+		}
+		bc := FindFunc(tb, "storeBuilder", "Close")
+		if bc == nil {
+			return "", fmt.Errorf("storeBuilder.Close not found")
+		}
+		var resNames, deferAssigned, declared []string
+		if bc.Type.Results != nil {
+			for _, f := range bc.Type.Results.List {
+				for _, n := range f.Names {
+					resNames = append(resNames, n.Name)
+				}
+			}
+		}
+		ast.Inspect(bc.Body, func(n ast.Node) bool {
+			switch x := n.(type) {
+			case *ast.DeferStmt:
+				if lit, ok := x.Call.Fun.(*ast.FuncLit); ok {
+					ast.Inspect(lit.Body, func(m ast.Node) bool {
+						if as, ok := m.(*ast.AssignStmt); ok && as.Tok == token.ASSIGN {
+							for _, l := range as.Lhs {
+								if id, ok := l.(*ast.Ident); ok {
+									deferAssigned = append(deferAssigned, id.Name)
+								}
+							}
+						}
+						return true
+					})
+				}
+				return false
+			case *ast.DeclStmt:
+				if gd, ok := x.Decl.(*ast.GenDecl); ok && gd.Tok == token.VAR {
+					for _, sp := range gd.Specs {
+						for _, nm := range sp.(*ast.ValueSpec).Names {
+							declared = append(declared, nm.Name)
+						}
+					}
+				}
+			}
+			return true
+		})
+		sb.WriteString("def builderCloseResultNames : List String := " + LeanStrList(resNames) + "\n")
+		sb.WriteString("def builderCloseDeferAssigned : List String := " + LeanStrList(deferAssigned) + "\n")
+		sb.WriteString("def builderCloseVarDecls : List String := " + LeanStrList(declared) + "\n")
+		sb.WriteString("def builderCloseDeferCalls : List String := " + LeanStrList(deferBodyCalls(bc)) + "\n")
 		return sb.String(), nil
 	}})
 }
